@@ -187,9 +187,9 @@ theorem fromProtoList_total (env : Env) : ∀ ps : List PQ, (fromProtoList env p
 end
 
 /-- **C24, the handlers are total**: whatever query message `Search`, `StreamSearch` or `List` receive (request,
-    inner request or query field unset; oneofs unset at any depth), they either answer `InvalidArgument` or call
-    the Streamer with a decoded query — they never panic before the Streamer runs. -/
-theorem handlers_total (env : Env) (p : PQ) : ∃ r, handler env p = .ok r := by
+    inner request, query or options field unset; oneofs unset at any depth), they either answer `InvalidArgument`
+    or call the Streamer with a decoded query — they never panic before the Streamer runs. -/
+theorem handlers_total (env : Env) (rpc : Rpc) (p : PQ) (optsSet : Bool) : ∃ r, handler env rpc p optsSet = .ok r := by
   unfold handler
   have h := fromProto_total env p
   cases hq : fromProto env p with
@@ -198,9 +198,25 @@ theorem handlers_total (env : Env) (p : PQ) : ∃ r, handler env p = .ok r := by
   | panic s => rw [hq] at h; simp [Outcome.isOkOrErr] at h
   | diverge => rw [hq] at h; simp [Outcome.isOkOrErr] at h
 
+/-- the searchers dereference their options: `Search` and `StreamSearch` never hand them nil, even when the request
+    leaves `opts` unset -/
+theorem search_options_never_nil (env : Env) (rpc : Rpc) (hr : rpc ≠ .list) (p : PQ) (optsSet : Bool) (q : Q) (o : OptsArg)
+    (h : handler env rpc p optsSet = .ok (.callsStreamer q o)) : o ≠ .nilOpts := by
+  unfold handler at h
+  cases hq : fromProto env p with
+  | ok q' =>
+    rw [hq] at h
+    simp only [Outcome.ok.injEq, HandlerResult.callsStreamer.injEq] at h
+    rw [← h.2]
+    unfold optsArg
+    cases optsSet <;> cases rpc <;> simp_all
+  | err e => rw [hq] at h; simp at h
+  | panic s => rw [hq] at h; simp at h
+  | diverge => rw [hq] at h; simp at h
+
 /-- a request whose query is missing is answered with InvalidArgument (the case that used to crash the server) -/
-theorem handler_missing_query (env : Env) : handler env .absent = .ok .invalidArgument ∧
-    handler env .unset = .ok .invalidArgument ∧ handler env (.not_ .absent) = .ok .invalidArgument := by
+theorem handler_missing_query (env : Env) (rpc : Rpc) (o : Bool) : handler env rpc .absent o = .ok .invalidArgument ∧
+    handler env rpc .unset o = .ok .invalidArgument ∧ handler env rpc (.not_ .absent) o = .ok .invalidArgument := by
   refine ⟨rfl, rfl, rfl⟩
 
 /-! ## translator tables: the code has the shape the model assumes (regenerated from the working tree by every run) -/
